@@ -3,6 +3,7 @@ import AdeuModel.Lemmas.ComGrow
 import AdeuModel.Lemmas.Engine
 import AdeuModel.Lemmas.Grow
 import AdeuModel.Lemmas.ShownWith
+import AdeuModel.Lemmas.Threads
 /-
 C10 — comments requested with an edit or a reply are never lost or misattached (model-level clauses).
 -/
@@ -75,6 +76,22 @@ example : ∃ snap ∈ (metaGroups [] shownPara).flatten, "7".toList ∈ snap.co
 
 example : paraText false [("7".toList, ⟨"Q7".toList, "why".toList, [], false, none⟩)] shownPara =
     "Hello {--big--}{++small++}{>>[Chg:1] Q7\n[Chg:2] Q7\n[Com:7] Q7: why<<} world".toList := by decide
+
+/-- **A reply is shown with the thread it answers.**  Whenever the reader writes comment `c` into a metadata block
+(`c` known to the comment map and not yet in the block), the block afterwards has a line `[Com:r] …` for every comment
+`r` whose parent is `c` - for any comment map, any state of the block whose lines match its signatures (the empty block
+a metadata block starts from does), any fuel ≥ 2. -/
+theorem C10_reply_shown_with_thread (cm : CMap) (n : Nat) (c r : Str) (dc dr : CData)
+    (hc : cmGet cm c = some dc) (hr : cmGet cm r = some dr) (hp : dr.parent = some c)
+    (lines seen : List Str) (hok : LinesOk (lines, seen)) (hns : seen.contains ("Com:".toList ++ c) = false) :
+    ∃ l ∈ (renderComment cm (n + 2) c (lines, seen)).1, comHead r <+: l :=
+  reply_line_with_parent cm n c r dc dr hc hr hp lines seen hok hns
+
+def threadMap : CMap :=
+  [("7".toList, ⟨"Q7".toList, "why".toList, [], false, none⟩), ("9".toList, ⟨"Q8".toList, "because".toList, [], false, some "7".toList⟩)]
+
+example : (renderComment threadMap 3 "7".toList ([], [])).1 = ["[Com:7] Q7: why".toList, "[Com:9] Q8: because".toList] := by decide
+example : LinesOk (([] : List Str), ([] : List Str)) := by intro id h; cases h
 
 /-- Existing comments keep their entry (text, author, date, paragraph ids, threading record) and their
 position in all four comment parts, whatever the batch does: the lists only grow at the end. -/
